@@ -235,14 +235,14 @@ impl SourceView {
 
             let mut off_end = off;
             for c in char_iter {
-                if idx >= (col + span) as usize {
+                if idx as u64 >= u64::from(col) + u64::from(span) {
                     break;
                 }
                 off_end += c.len_utf8();
                 idx += c.len_utf16();
             }
 
-            if idx < ((col + span) as usize) {
+            if (idx as u64) < u64::from(col) + u64::from(span) {
                 None
             } else {
                 line.get(off..off_end)
